@@ -133,6 +133,8 @@ var consPool = []consLeaf{
 	// must statements over leaves with a default: valid as long as nobody sets the operand to something else
 	{path: "/cons/mst/g", good: []string{"gd", "other"}},
 	{path: "/cons/mst/h", good: []string{"hv"}},
+	{path: "/cons/mst/k", good: []string{"kv"}},
+	{path: "/sys/log/level", good: []string{"info", "warn"}},
 	{path: "/if[name=e1]/enabled", good: []string{"true", "false"}},
 	{path: "/if[name=e1]/unit[id=1]/chk", good: []string{"c"}},
 	{path: "/if[name=e2]/unit[id=2]/chk", good: []string{"c"}},
